@@ -513,6 +513,7 @@ fn main() {
             hsize: 0,
             halign: 0,
             ma_override: None,
+            prev_state: None,
             up,
             ga,
             de,
